@@ -2,8 +2,8 @@
 
 Spec: spec/OpenSSHKey.tla (+ _MC): the container and the accept decision of parseOpenSSHPrivateKey (checks in the order
 of the code) over writer x key type x cipher x calling mode (no / right / wrong passphrase) x 33 corruption classes;
-TLC checks PristineParses, WrongPassphrase, MissingPassphrase and that everything accepted is consistent except exactly
-the listed gaps (AcceptOnlyConsistentOrGap; the property as stated is the expected counterexample of OpenSSHKey_Doc.cfg).
+TLC checks PristineParses, WrongPassphrase, MissingPassphrase and that everything accepted is consistent
+(AcceptOnlyConsistent; the parser before fix 189504f survives as OpenSSHKey_Doc.cfg, FixConsistency = FALSE, an expected counterexample).
 Binding R builds every case from real files (MarshalPrivateKey(WithPassphrase), ssh-keygen), corrupts them with an
 independent container codec (re-encrypting with the known passphrase) and parses them with the real parsers; accepted
 keys are tested directly (sign/verify, public key equals the stored one); Go-written files go to ssh-keygen -y."""
@@ -29,10 +29,12 @@ def run(ctx):
     jobs = [{"cfg": "OpenSSHKey_MC.cfg", "kw": {"workers": 4}},
             {"cfg": "OpenSSHKey_GenT.cfg" if ctx.thorough else "OpenSSHKey_GenQ.cfg", "gen": True}]
     res = par_tlc(ctx, M, jobs)
-    r = ctx.tlc(M, cfg="OpenSSHKey_Doc.cfg", workers=2, timeout=600, expect_violation=True, count=False,
-                note="expected counterexample: the parser accepts inconsistent files (open findings C39-*)") if ctx.thorough else None
-    if r is not None and r.violated != "AcceptOnlyConsistent":
-        ctx.notes.append("OpenSSHKey_Doc.cfg: the expected design-level counterexample was not found: the model no longer has the gaps of the open findings")
+    if ctx.thorough:
+        # documentation of the repaired defects C39-K1..K4 (FixConsistency = FALSE, code before 189504f): never replayed on the code
+        r = ctx.tlc(M, cfg="OpenSSHKey_Doc.cfg", workers=2, timeout=600, expect_violation=True, count=False,
+                    note="documentation (FixConsistency = FALSE): expected counterexample to AcceptOnlyConsistent")
+        if r.violated != "AcceptOnlyConsistent":
+            raise vlib.Infra("OpenSSHKey_Doc.cfg: TLC no longer finds the counterexample that documents the repaired defects C39-K1..K4 (violated=%r)" % r.violated)
     cases = res[jobs[1]["cfg"]].traces
     if ctx.replay:
         rep = __import__("json").load(open(ctx.replay))
